@@ -87,13 +87,60 @@ def make_cases(ctx, n):
     return cases
 
 
+def boundary_cases(ctx, n):
+    """jumps solved for (after a first pass through the real binary that measures the packet times) so that a record
+    lands exactly on a second boundary, one nanosecond before / after it, and in the last representable second
+    before 2^32 s"""
+    r = ctx.rng
+    bases = []
+    for i in range(n):
+        pk = lambda: gen.Do(gen.Call("ipv4::udp::unicast", gen.SOCK("1.2.3.4:1"), gen.SOCK("1.2.3.5:2"),
+                                     _x=[gen.STR(bytes(r.getrandbits(8) for _ in range(r.choice([0, 1, 30, 500]))))]))
+        b = Case()
+        b.name, b.files, b.text, b.gen = "b%d" % i, {}, None, None
+        b.stmts = [gen.Import("ipv4"), gen.Import("time"), pk(), pk(), pk()]
+        b.meta = [{"kind": "import", "npk": 0}, {"kind": "import", "npk": 0}] + [{"kind": "expr", "npk": 1}] * 3
+        bases.append(b)
+    _, res = common.run_programs("c12pre", {b.name: gen.render_program(b.stmts) for b in bases})
+    out = []
+    for b in bases:
+        out.append(b)
+        rr = res[b.name]
+        if rr.status != "ok":
+            continue
+        ok, recs = common.pcap_records(rr.pcap)
+        t = [x[0] * 10**9 + x[1] for x in recs]
+        if len(t) != 3:
+            continue
+        S = 10**9
+        LIM = 2**32 * S
+        cand = [("nanos", (-t[1]) % S + S * r.choice([0, 1, 7])), ("nanos", (-t[1] - 1) % S), ("nanos", (-t[1] + 1) % S + S),
+                ("nanos", (-t[2]) % S + 3 * S), ("seconds", 4294967295), ("millis", 4294967295999),
+                ("nanos", LIM - 1 - t[2]), ("micros", (LIM - 1 - t[2]) // 1000)]
+        for j, (unit, mag) in enumerate(cand):
+            mult = {"seconds": 10**9, "millis": 10**6, "micros": 10**3, "nanos": 1}[unit]
+            pos = 3 if j != 3 else 4            # before the second (third) packet
+            v = Case()
+            v.name, v.files, v.text = "%sv%d" % (b.name, j), {}, None
+            v.stmts = b.stmts[:pos] + [gen.Do(gen.Call("time::jump_" + unit, gen.INT(mag)))] + b.stmts[pos:]
+            v.meta = b.meta[:pos] + [{"kind": "expr", "npk": 0, "what": "jump", "ns": mag * mult}] + b.meta[pos:]
+            v.gen = {"d": mag * mult, "nbefore": pos - 2, "base": b.name, "directed": True}
+            out.append(v)
+    ctx.dist["directed_boundary_variants"] = len(out) - len(bases)
+    return out
+
+
 def run(ctx):
     n = 400 if ctx.thorough else 60
-    cases = make_cases(ctx, n)
+    cases = make_cases(ctx, n) + boundary_cases(ctx, 12 if ctx.thorough else 4)
     diff.run_both(ctx, "c12", cases)
     byname = {c.name: c for c in cases}
     for c in cases:
-        ctx.count("random+jump-variant")
+        ctx.count("directed-boundary" if (c.gen or {}).get("directed") or c.name[0] == "b" else "random+jump-variant")
+        if (c.gen or {}).get("directed") and c.impl.status != "ok" and c.model["status"] == "ok":
+            ctx.fail("jump-rejected", "a jump that keeps the clock below 2^32 s is not compiled: %s %s" % (c.impl.status, c.impl.kind),
+                     diff.replay_of(c))
+            continue
         if not diff.triage(ctx, c):
             continue
         base = byname.get(c.gen["base"]) if c.gen else None
